@@ -50,6 +50,17 @@ func C08(c *vf.Check) {
 	cases, res := collectTermCases(c, "MC_Seq", "MC_Seq.cfg", consts, tier(c, 10*time.Minute, 60*time.Minute))
 	c.Note("TLC MC_Seq: %d states, %d distinct, %d cases emitted, invariants RefAgree/Protocol/NoSpin hold (%.0fs)", res.Generated, res.Distinct, res.Cases, res.Wall.Seconds())
 
+	// T_nest: nested loops whose inner loop value is run once per outer iteration (a run of a loop value that
+	// starts while an earlier run of the same value is still unwinding), tapes long enough for an iteration
+	// that suspends, one that leaves the loop and one that completes synchronously, in every order
+	nconsts := map[string]string{"Fam": tier(c, `"nest"`, `"nestfull"`), "TapeLen": "8", "MaxCalls": tier(c, "4", "5"), "MaxSize": "1"}
+	ncases, nres := collectTermCases(c, "MC_Seq", "MC_Seq.cfg", nconsts, tier(c, 10*time.Minute, 60*time.Minute))
+	c.Note("TLC MC_Seq(T_nest): %d states, %d cases emitted, invariants RefAgree/Protocol/NoSpin hold (%.0fs)", nres.Generated, nres.Cases, nres.Wall.Seconds())
+	nSize := len(cases)
+	cases = append(cases, ncases...)
+	res.Distinct += nres.Distinct
+	res.Generated += nres.Generated
+
 	terms := newUniq()
 	var jobs []termJob
 	for _, tc := range cases {
@@ -88,7 +99,7 @@ func C08(c *vf.Check) {
 			}
 		}
 		if exp != got {
-			c.Violation(J{"family": "T_term", "term": tc.Term, "tape": tc.Tape, "expected": json.RawMessage(exp), "actual": got, "go": renderTerm(tc.Term)},
+			c.Violation(J{"family": map[bool]string{true: "T_term", false: "T_nest"}[i < nSize], "term": tc.Term, "tape": tc.Tape, "expected": json.RawMessage(exp), "actual": got, "go": renderTerm(tc.Term)},
 				fmt.Sprintf("term %s tape=%s\n  spec: %s\n  real: %s", renderTerm(tc.Term), canon(tc.Tape), exp, got))
 		}
 		if len(tc.Obs) > 0 && len(arr(obj(tc.Obs[0])["effs"])) > 0 {
@@ -108,7 +119,7 @@ func C08(c *vf.Check) {
 	c.Cov["programs"] = int64(len(terms.vals))
 	c.Cov["evaluations"] = int64(len(cases))
 	c.Cov["distinct_nontrivial"] = int64(len(nontrivial))
-	c.Cov["rule"] = "every well-formed term of T_term up to MaxSize x every tape up to TapeLen, MaxCalls advances each (prefixes = all truncations); non-trivial = distinct (term,tape) whose first advance performs at least one effect or tape read; plus trace validation of the runtime's internal event streams (verif tracer) recorded from the repository's own tests and examples and from sampled terms against Trace_Seq.tla"
+	c.Cov["rule"] = "every well-formed term of T_term up to MaxSize x every tape up to TapeLen, MaxCalls advances each (prefixes = all truncations); every term of T_nest (two nested loops, the inner one a single Seq value run once per outer iteration, body = tape-guarded choice between signals, yield-then-signal and a second guarded pair) x every tape of length 8 (thorough: all post / Breakable variants); non-trivial = distinct (term,tape) whose first advance performs at least one effect or tape read; plus trace validation of the runtime's internal event streams (verif tracer) recorded from the repository's own tests and examples and from sampled terms against Trace_Seq.tla"
 	c.Cov["exhaustive"] = true
 	c.Cov["bounds"] = consts
 	c.Assumptions = append(c.Assumptions,
